@@ -267,15 +267,16 @@ def emit(cpp, incdir, leaf, libclasses):
     w("#define VERIF_CLEAN1(x) clean(&(x), sizeof(x))\n#define VERIF_CLEAN2(p, n) clean((p), (n))\n")
     # data members
     state = ctor_state(classes, funcs, leaf, libclasses)
+    ifdecl = []
     w("/* ---- data members of %s as file-scope objects ---- */\n" % " : ".join(chain))
     for c in reversed(chain):
         for (ty, nm, dims) in classes[c]["members"]:
             mt = re.match(r"(\w+)\s*\*$", ty)
             if mt and mt.group(1) in classes:
-                w("/* %s::%s (pointer to a %s) dropped: calls through it become %s__<method>() */\n" % (c, nm, mt.group(1), mt.group(1)))
+                ifdecl.append("/* %s::%s (pointer to a %s) dropped: calls through it become %s__<method>() */\n" % (c, nm, mt.group(1), mt.group(1)))
                 for (mn, (ret, params)) in classes[mt.group(1)]["methods"].items():
-                    w("#ifndef VC_%s__%s\n#define VC_%s__%s\n#endif\n" % (mt.group(1), mn, mt.group(1), mn))
-                    w("%s %s__%s(%s) VC_%s__%s;\n" % (ret, mt.group(1), mn, params if params.strip() else "void", mt.group(1), mn))
+                    ifdecl.append("#ifndef VC_%s__%s\n#define VC_%s__%s\n#endif\n" % (mt.group(1), mn, mt.group(1), mn))
+                    ifdecl.append("%s %s__%s(%s) VC_%s__%s;\n" % (ret, mt.group(1), mn, params if params.strip() else "void", mt.group(1), mn))
                 continue
             if nm in state and not dims:
                 continue
@@ -287,6 +288,7 @@ def emit(cpp, incdir, leaf, libclasses):
                 continue
             if nm in state and not dims:
                 w("static %s %s = %s;   /* %s::%s, as initialised by the constructor chain */\n" % (ty, nm, state[nm], c, nm))
+    o.extend(ifdecl)
     if "r" in state:
         w("#define VERIF_ARD_ROUNDS %s   /* constructor value of r */\n" % state["r"])
     arrays = [nm for c in chain for (ty, nm, dims) in classes[c]["members"] if dims or ty.startswith(("struct", "union"))]
